@@ -262,6 +262,30 @@ func conformMain(rc *RunCtx) {
 	if rc.Failed() || !st.Bool(1, 2) {
 		return
 	}
+	if !spec.Sparse && st.Bool(1, 8) {
+		// a crowd: several dozen peers with a known port arrive, are
+		// announced by PEX, and leave within one PEX interval (a PEX
+		// message carries at most 50 additions and 50 deletions)
+		simrt.Fault("crowd-arrives-and-leaves")
+		var crowd []*RefPeer
+		for i, n := 0, 52+st.Choice(20); i < n; i++ {
+			cfg := PeerCfg{
+				Name: fmt.Sprintf("crowd%d", i), Port: 8000 + i, ExtP: 8000 + i, Ext: true, Fast: st.Bool(1, 2),
+				Have: func(int) bool { return false }, Advertise: 0, Reqq: -1, MetadataSize: -1, UnchokeAfter: -1,
+			}
+			p := w.NewPeer(spec, cfg)
+			p.Connect()
+			crowd = append(crowd, p)
+		}
+		simrt.Sleep(time.Duration(130+st.Choice(60)) * time.Second)
+		rc.Tracef("the crowd leaves")
+		for _, p := range crowd {
+			p.Disconnect(st.Bool(1, 4))
+			if st.Bool(1, 3) {
+				simrt.Sleep(time.Duration(st.Choice(500)) * time.Millisecond)
+			}
+		}
+	}
 	// PEX convergence: the peer set stops changing; after three PEX
 	// intervals every capable peer knows exactly the others
 	for k := range w.Listeners {
@@ -544,6 +568,18 @@ func uploadMain(rc *RunCtx) {
 						simrt.Fault("evict-all")
 						t.Pieces.Expire(0, nil, func(i uint32) { t.Have(i, false) })
 						simrt.Sleep(time.Second)
+						if st.Bool(1, 3) {
+							// a piece arrives corrupt first (its blocks are all
+							// there while it is being hashed, and the hash fails)
+							simrt.Fault("corrupt-piece-stored-and-hashed")
+							i := held[st.Choice(len(held))]
+							pc := append([]byte(nil), spec.Piece(i)...)
+							pc[st.Choice(len(pc))] ^= 0x5a
+							for off := 0; off < len(pc); off += chunkSize {
+								t.Pieces.AddData(uint32(i), uint32(off), pc[off:min(off+chunkSize, len(pc))], ^uint32(0))
+							}
+							t.Pieces.Finalise(uint32(i), t.PieceHashes[i])
+						}
 						w.Preload(t, spec, held)
 					}
 				case 6:
@@ -610,6 +646,19 @@ func uploadMain(rc *RunCtx) {
 		}
 	}
 	if rc.Failed() {
+		return
+	}
+	if st.Bool(1, 3) {
+		// the torrent is deleted while leechers are connected and unchoked:
+		// the accounting must come back to zero all the same
+		simrt.Fault("torrent-killed-with-leechers-unchoked")
+		ctx, cancel := context.WithTimeout(context.Background(), time.Minute)
+		t.Kill(ctx)
+		cancel()
+		simrt.Sleep(30 * time.Second)
+		if n := peer.NumUnchoking(); n != 0 {
+			rc.Fail("C16", "num-unchoking", "after-deletion", "peer.NumUnchoking()=%d after the only torrent was deleted", n)
+		}
 		return
 	}
 	for _, p := range w.Peers {
